@@ -319,6 +319,12 @@ def build_facts(dump_lines, scanned_units, other_enums, tab=None):
             r = rs[0]
             ev.append({'e': 'QType', 'name': r['name'], 'shape': r['shape'], 'unit_type': r['unit_type'] or '#none',
                        'dims': r['dims'], 'dims_f': r['dims_f'], 'dims_l': r['dims_l']})
+    # implemented coherence (C07): judged once every table is known
+    for (e, T), rs in sorted(by.items()):
+        if e == 'Consistent':
+            for c in rs:
+                if c['unit']:
+                    ev.append({'e': 'ImplCoherent', 'type': T, 'system': c['system'], 'unit': c['unit']})
     ns = []
     for (e, n), rs in sorted(by.items()):
         if e == 'NonSpelling':
